@@ -39,10 +39,17 @@ def _strategy_reg(shapes):
             M[:] = M[0]                             # every observation uses the same map
         elif regime == "zero_M_one":
             M[draw(st.integers(0, N - 1))] = 0.0    # one uninformative observation
+        S = draw(gen.spd(N, Dy, kappa=kappa))
+        if Dw == Dy and draw(st.sampled_from([False, False, True])):
+            # sharp complete observations of a vague prior (same units): well-conditioned square maps, noise variance 1e-10 /
+            # 1e-14; covariance-form ("gain") updates cancel here, the information form does not
+            regime = "sharp"
+            M = draw(gen.spd(N, Dw, kappa=10.0, lam_lo=0.5, lam_hi=1.0))
+            S = S * draw(st.sampled_from([1e-10, 1e-14]))
         return {"Dw": Dw, "Dy": Dy, "N": N, "regime": regime,
                 "prior": draw(gen.measure_params("pdf", 1, Dw, kappa)),
                 "M": M, "b": draw(gen.arr((N, Dy))),
-                "S": draw(gen.spd(N, Dy, kappa=kappa)), "y": draw(gen.arr((N, Dy), -2.5, 2.5)),
+                "S": S, "y": draw(gen.arr((N, Dy), -2.5, 2.5)),
                 "perm": list(draw(st.permutations(list(range(N)))))}
     return s()
 
@@ -76,10 +83,16 @@ def _run_reg(case):
         Sb[i * Dy:(i + 1) * Dy, i * Dy:(i + 1) * Dy] = S[i]
     Sy = Sb + Ms @ Sig0 @ Ms.T
     Sy = 0.5 * (Sy + Sy.T)
-    if oracle.cond(Sy[None])[0] > 1e6:
+    sharp = case.get("regime") == "sharp"
+    if sharp:
+        # the posterior is judged (information form); the evidence is not: its stacked covariance is ill-conditioned for N >= 2
+        # and the factor route's log-integral legitimately loses eps * |y' Lambda y| there (natural scale of the log-constants)
+        ev = evs = None
+    elif oracle.cond(Sy[None])[0] > 1e6:
         return [Failure("excluded:ill_conditioned_derived", "evidence covariance cond > 1e6")]
-    ev, evs = oracle.mvn_ln(y.reshape(1, -1), (Ms @ mu0 + bs)[None], Sy[None])
-    ev, evs = ev[0, 0], evs[0, 0]
+    else:
+        ev, evs = oracle.mvn_ln(y.reshape(1, -1), (Ms @ mu0 + bs)[None], Sy[None])
+        ev, evs = ev[0, 0], evs[0, 0]
     amp = kap ** 0.5 * N
     s_mu = (1 + np.abs(mup)) * amp
     s_S = np.abs(Sp).max() * amp * np.ones_like(Sp)
@@ -107,7 +120,8 @@ def _run_reg(case):
             p, acc = res
             check(fails, f"sequential[{name}]:mu", np.asarray(p.mu)[0], mup, s_mu)
             check(fails, f"sequential[{name}]:Sigma", np.asarray(p.Sigma)[0], Sp, s_S)
-            check(fails, f"sequential[{name}]:evidence", float(acc), ev, evs * amp)
+            if ev is not None:
+                check(fails, f"sequential[{name}]:evidence", float(acc), ev, evs * amp)
     # (b) stacked conditional -> joint -> condition on the observation coordinates
     def joint_route():
         c = conditional.ConditionalGaussianPDF(M=J(Ms[None]), b=J(bs[None]), Sigma=J(Sb[None]))
@@ -119,7 +133,8 @@ def _run_reg(case):
         p, e2 = res
         check(fails, "joint_route:mu", np.asarray(p.mu)[0], mup, s_mu)
         check(fails, "joint_route:Sigma", np.asarray(p.Sigma)[0], Sp, s_S)
-        check(fails, "joint_route:evidence", float(e2), ev, evs * amp)
+        if ev is not None:
+            check(fails, "joint_route:evidence", float(e2), ev, evs * amp)
     # (c) prior * product of likelihood factors, normalised
     def factor_route():
         c = conditional.ConditionalGaussianPDF(M=J(M), b=J(b), Sigma=J(S))
@@ -132,7 +147,7 @@ def _run_reg(case):
         check(fails, "factor_route:mu", np.asarray(p.mu)[0], mup, s_mu)
         check(fails, "factor_route:Sigma", np.asarray(p.Sigma)[0], Sp, s_S)
         fl = []
-        if not check(fl, "factor_route:evidence", float(e3), ev, evs * amp):
+        if ev is not None and not check(fl, "factor_route:evidence", float(e3), ev, evs * amp):
             f0 = fl[0]
             shift = N * 0.5 * (Dy - Dw) * LN2PI
             if Dw != Dy and check([], "x", float(e3) - shift, ev, evs * amp, tol=1e-9):
